@@ -1,16 +1,23 @@
 import KoordVerif.Common.Proto
 import KoordVerif.Model.C02
+import KoordVerif.Model.C02Scale
 /-
 Driver for C02.  Case =
   total <T>
   node <name> <weight> <request> <min> <guarantee> <lend>     (one per sibling)
   run
 Output: `rt <name> <runtime>` sorted by name, then `end`.
+Scale-min ops (one parent per case): `sm upd <child> <min> <enable>`, `sm rem <child>`,
+`sm get <total> <child>` → `scaled <no|value> sums <enableSum> <disableSum>`.
 -/
 namespace KoordVerif.C02
 open KoordVerif.Proto
 
+def floatShare (avail min enableSum : Int) : Int :=
+  (Float.ofInt avail * Float.ofInt min / Float.ofInt enableSum).toInt64.toInt
+
 structure DState where
+  sm : SM := SM.init
   total : Int := 0
   nodes : List Node := []
   out   : List String := []
@@ -35,6 +42,22 @@ def stepLine (s : DState) (line : String) : DState :=
   | ["run"] =>
     let rs := sortByName (redistribute s.total s.nodes)
     { s with out := s.out ++ rs.map (fun p => s!"rt {p.1} {p.2}") ++ ["end"], nodes := [], total := 0 }
+  | ["sm", "upd", a, b, c] =>
+    match nat? a, int? b, int? c with
+    | some a, some b, some c => { s with sm := s.sm.update a b (c ≠ 0) }
+    | _, _, _ => { s with bad := true, out := s.out ++ ["bad-op"] }
+  | ["sm", "rem", a] =>
+    match nat? a with
+    | some a => { s with sm := s.sm.remove a }
+    | none => { s with bad := true, out := s.out ++ ["bad-op"] }
+  | ["sm", "get", t, a] =>
+    match int? t, nat? a with
+    | some t, some a =>
+      let o := match s.sm.scaled floatShare t a with
+        | none => "scaled no"
+        | some m => s!"scaled {m}"
+      { s with out := s.out ++ [o ++ s!" sums {s.sm.enableSum} {s.sm.disableSum}"] }
+    | _, _ => { s with bad := true, out := s.out ++ ["bad-op"] }
   | _ => { s with bad := true, out := s.out ++ ["bad-op"] }
 
 def runCase (lines : List String) : List String :=
